@@ -21,7 +21,7 @@ def c13(tier):
         runs.append(dict(harness="verifHarness_C13", args=[n, 2], reach=["C13/accepted"]))
     for n in range(full + 1, sig + 1):
         runs.append(dict(harness="verifHarness_C13", args=[n, 1], reach=["C13/accepted"]))
-    return runs
+    return runs + corpus(13)
 
 
 def c03(tier):
@@ -35,7 +35,7 @@ def c03(tier):
 
 
 def c03_all(tier):
-    return c03(tier) + s2_errors(3, tier) + fam_mut(3, tier)
+    return c03(tier) + s2_errors(3, tier) + fam_mut(3, tier) + corpus(3)
 
 
 def c15(tier):
@@ -133,6 +133,8 @@ def s2_errors(prop, tier):
     runs = [s2(prop, 0, 5, m, e) for e in (EXPR, TYPE, QUERY, STMT)]
     runs.append(s2(prop, 0, 6, 2 if q else 3, STMT))
     runs.append(s2(prop, 0, 6, 2 if q else 3, 5))
+    runs.append(s2(prop, 0, 6, 3, 1))                      # statement lists (ParseStatements)
+    runs.append(s2(prop, 0, 6, 2 if q else 3, 8))          # ParseDMLs
     runs.append(s2(prop, 1, 5, m - 1 if q else m, STMT))
     runs.append(s2(prop, 4, 5, m - 1 if q else m, EXPR))
     runs.append(s2(prop, 2, 0, 1, EXPR))
@@ -158,13 +160,15 @@ def c08(tier):
 
 
 def c02(tier):
-    return s1_parser("verifHarness_C02", "C02/accepted", tier) + [dict(r, args=[2] + r["args"][1:]) for r in s2_accepting(1, tier)] + fam(2, tier)
+    return s1_parser("verifHarness_C02", "C02/accepted", tier) + [dict(r, args=[2] + r["args"][1:]) for r in s2_accepting(1, tier)] + fam(2, tier) + corpus(2)
 
 
 def c16(tier):
+    seed = int(__import__("os").environ.get("VERIF_SEED", "0") or 0)
     if tier == "quick":
-        return fam(160, tier, cut=False, budget=1)
-    return fam(16, tier, cut=False, budget=2)
+        # an eighth of the corpus per run (which one: VERIF_SEED), every token position, 4 trivia forms / 2 re-casings
+        return fam(160, tier, cut=False, budget=1) + corpus(16, 8, seed % 8)
+    return fam(16, tier, cut=False, budget=2) + corpus(161, 1, 0)
 
 
 def c06(tier):
@@ -174,7 +178,7 @@ def c06(tier):
         runs.append(s2(6, 0, 0, 2, EXPR, True))
     else:
         runs += [dict(r, args=[6] + r["args"][1:]) for r in s2_accepting(1, "quick")[:2]]
-    return runs
+    return runs + corpus(6)
 
 
 def c07(tier):
@@ -208,7 +212,7 @@ def c19(tier):
             dict(harness="verifHarness_C19", args=[0, 1, 1, 1, 0]),                # everything present
             dict(harness="verifHarness_C19", args=[0, 1, 2, 0, 2 if q else 3])]    # children with their own children
     runs += fam(19, tier, cut=False, budget=1 if q else 2)
-    return runs
+    return runs + corpus(19)
 
 
 def c17(tier):
@@ -219,7 +223,7 @@ def c17(tier):
     if not q:
         runs.append(dict(harness="verifHarness_C17", args=[0, 1, 2, 0, 3]))
     runs += fam(17, tier, cut=False, budget=1 if q else 2)
-    return runs
+    return runs + corpus(17)
 
 
 def c14(tier):
@@ -238,7 +242,7 @@ def c14(tier):
     for form in range(4):
         for long in (0, 1):
             runs.append(dict(harness="verifHarness_C14_uni", args=[form, long]))
-    return runs
+    return runs + corpus(14)
 
 
 def c18(tier):
@@ -253,9 +257,15 @@ def c18(tier):
     return runs
 
 
+def corpus(prop, parts=1, part=0, cut=False):
+    # corpus inputs are up to a few kB: the unwinding budget is raised accordingly
+    r = dict(harness="verifHarness_Corpus", args=[prop, part, parts], budget=400000000 if prop == 6 else 50000000)
+    return [r]
+
+
 def c10(tier):
     runs = s1_parser("verifHarness_C10", "C10/bad", tier, sig_extra=False)
-    return runs + s2_errors(10, tier) + fam_mut(10, tier)
+    return runs + s2_errors(10, tier) + fam_mut(10, tier) + corpus(10)
 
 
 def c01(tier):
@@ -264,19 +274,19 @@ def c01(tier):
     for form in range(8):
         for n in range(0, k + 1):
             runs.append(dict(harness="verifHarness_C01_lit", args=[n, form]))
-    return runs + s2_accepting(1, tier) + fam(1, tier)
+    return runs + s2_accepting(1, tier) + fam(1, tier) + corpus(1)
 
 
 def c04(tier):
-    return s1_parser("verifHarness_C04", "C04/done", tier) + s2_errors(4, tier) + fam(4, tier, cut=False) + fam_mut(4, tier)
+    return s1_parser("verifHarness_C04", "C04/done", tier) + s2_errors(4, tier) + fam(4, tier, cut=False) + fam_mut(4, tier) + corpus(4)
 
 
 def c05(tier):
-    return s1_parser("verifHarness_C05", "C05/done", tier) + s2_accepting(5, tier) + s2_errors(5, tier)[:4] + fam(5, tier)
+    return s1_parser("verifHarness_C05", "C05/done", tier) + s2_accepting(5, tier) + s2_errors(5, tier)[:4] + fam(5, tier) + corpus(5)
 
 
 def c09(tier):
-    return s1_parser("verifHarness_C09", "C09/error", tier) + s2_errors(9, tier) + fam_mut(9, tier)
+    return s1_parser("verifHarness_C09", "C09/error", tier) + s2_errors(9, tier) + fam_mut(9, tier) + corpus(9)
 
 
 PROPS = {
